@@ -926,13 +926,14 @@ class Swap:
     """`void swap(C& other)`: straight-line code (declarations, assignments, `if((a = b)) … else …`) over the members of two
     objects.  The model keeps one node heap per table, and `swap` exchanges the heaps (as the code exchanges `blocks`): every
     pointer value is translated together with the heap it points into ('A' = the heap `this` owns at entry, 'B' = `other`'s).
-    At the end all pointer members of an object must designate one heap; that heap becomes the object's."""
-    PTR = {"begin": "nxt", "endPrev": "opt", "freeItem": "opt"}
-    SCALAR = {"_size": "size", "capacity": "cap"}
+    At the end all pointer members of an object must designate one heap; that heap (with the class constants that
+    describe its blocks) becomes the object's.  The members are executed symbolically; only the stores into items and
+    the tests appear in the generated term."""
+    MEM = {"_begin.item": ("begin", "nxt"), "endItem.prev": ("endPrev", "opt"), "freeItem": ("freeItem", "opt"),
+           "data": ("data", "data"), "blocks": ("blocks", "blocks"), "_size": ("size", "nat"), "capacity": ("cap", "nat")}
 
     def __init__(self, cls):
         self.cls, self.n = cls, 0
-        self.lines = []
 
     def refuse(self, msg):
         raise Refuse(f"{self.cls}::swap: {msg}")
@@ -942,199 +943,141 @@ class Swap:
         return f"{b}{self.n}"
 
     def member(self, e):
-        """(object, field) of a member expression"""
+        """(object, member key) of a member expression, or None"""
+        def flat(x):
+            if x[0] == "id":
+                return x[1]
+            if x[0] == "dot":
+                f = flat(x[1])
+                return None if f is None else f + "." + x[2]
+            return None
+        f = flat(e)
+        if f is None:
+            return None
         obj = "A"
-        if e[0] == "dot" and e[1] == ("id", "other"):
-            obj, e = "B", ("id", e[2])
-        elif e[0] == "dot" and e[1][0] == "dot" and e[1][1] == ("id", "other"):
-            obj, e = "B", ("dot", ("id", e[1][2]), e[2])
-        if e == ("dot", ("id", "_begin"), "item"):
-            return obj, "begin"
-        if e == ("dot", ("id", "endItem"), "prev"):
-            return obj, "endPrev"
-        if e[0] == "id" and e[1] in ("freeItem", "data", "blocks", "_size", "capacity"):
-            return obj, e[1]
-        return None
+        if f.startswith("other."):
+            obj, f = "B", f[len("other."):]
+        return (obj, f) if f in self.MEM else None
 
     def translate(self, stmts):
-        # state: st[obj][field] = (term, heap); heaps hA hB : Nat → PItem
-        self.st = {o: {"begin": (f"{o}.begin", o), "endPrev": (f"{o}.endPrev", o), "freeItem": (f"{o}.freeItem", o),
-                       "data": ((f"{o}.allocated", f"{o}.heads"), o), "blocks": (f"{o}.blocks", o),
-                       "_size": (f"{o}.size", None), "capacity": (f"{o}.cap", None)} for o in "AB"}
-        self.loc = {}
-        self.block(stmts)
-        out = list(self.lines)
-        res = []
-        for o in "AB":
-            heaps = {self.st[o][f][1] for f in ("begin", "endPrev", "freeItem", "data", "blocks")}
-            heaps.discard(None)
-            if len(heaps) != 1:
-                self.refuse(f"after the exchange the members of `{'this' if o == 'A' else 'other'}` designate items, buckets and "
-                            f"blocks of different objects")
-            hp = heaps.pop()
-            s = self.st[o]
-            res.append(f"{{ {o} with items := h{hp}, begin := {s['begin'][0]}, endPrev := {s['endPrev'][0]}, size := {s['_size'][0]}, "
-                       f"cap := {s['capacity'][0]}, allocated := {s['data'][0][0]}, heads := {s['data'][0][1]}, "
-                       f"freeItem := {s['freeItem'][0]}, blocks := {s['blocks'][0]}, ipb := {hp}.ipb, dcap := {hp}.dcap }}")
-        out.append(f"  some ({res[0]},\n        {res[1]})")
+        st = {o: {"_begin.item": (f"{o}.begin", "nxt", o), "endItem.prev": (f"{o}.endPrev", "opt", o),
+                  "freeItem": (f"{o}.freeItem", "opt", o), "data": ((f"{o}.allocated", f"{o}.heads"), "data", o),
+                  "blocks": (f"{o}.blocks", "blocks", o), "_size": (f"{o}.size", "nat", None),
+                  "capacity": (f"{o}.cap", "nat", None)} for o in "AB"}
+        return self.run(self.flatten(stmts), st, {}, {}, "  ")
+
+    def flatten(self, stmts):
+        out = []
+        for s in stmts:
+            if s[0] in ("block", "block*"):
+                out += self.flatten(s[1])
+            else:
+                out.append(s)
         return out
 
-    def value(self, e):
-        """(term, type, heap) of an rvalue"""
+    def value(self, e, st, loc, nn):
+        """(term, type, heap) of an rvalue without side effect"""
         if e[0] == "null":
             return ("none", "opt", None)
-        if e[0] == "id" and e[1] in self.loc:
-            return self.loc[e[1]]
         if e[0] == "addr":
             if e[1] == ("id", "endItem"):
                 return ("(Nxt.stl A.self)", "nxt", None)
             if e[1] == ("dot", ("id", "other"), "endItem"):
                 return ("(Nxt.stl B.self)", "nxt", None)
             self.refuse("address-of other than `&endItem` / `&other.endItem`")
-        m = self.member(e)
-        if m is not None:
-            o, f = m
-            t, hp = self.st[o][f]
-            ty = self.PTR.get(f, "data" if f == "data" else "nat")
-            return (t, ty, hp)
-        if e[0] == "assign":
-            v = self.value(e[2])
-            name = self.fresh("t")
-            if isinstance(v[0], tuple):
-                self.refuse("nested assignment of `data`")
-            self.lines.append(f"  let {name} := {v[0]}")
-            v = (name, v[1], v[2])
-            self.assign(e[1], v)
-            return v
-        self.refuse(f"expression `{e[0]}` is outside the translated subset")
+        v = None
+        if e[0] == "id" and e[1] in loc:
+            v = loc[e[1]]
+        else:
+            m = self.member(e)
+            if m is not None:
+                v = st[m[0]][m[1]]
+        if v is None:
+            self.refuse(f"expression `{e[0]}` is outside the translated subset")
+        if isinstance(v[0], str) and v[0] in nn:
+            return (nn[v[0]], "item", v[2])
+        return v
 
-    def assign(self, lhs, v):
+    def assign(self, lhs, v, st, loc, lines, ind):
         t, ty, hp = v
-        if lhs[0] == "id" and lhs[1] in self.loc:
-            self.refuse(f"the local `{lhs[1]}` is assigned twice")
         m = self.member(lhs)
         if m is not None:
             o, f = m
-            want = self.PTR.get(f, "data" if f == "data" else "nat")
-            if ty != want and not (want == "nxt" and ty == "item"):
+            want = self.MEM[f][1]
+            if ty == "item" and want == "nxt":
+                t, ty = f"(Nxt.item {t})", "nxt"
+            if ty == "item" and want == "opt":
+                t, ty = f"(some {t})", "opt"
+            if ty != want:
                 self.refuse(f"a value of type {ty} is stored into `{f}`")
-            if want == "nxt" and ty == "item":
-                t = f"(Nxt.item {t})"
-            if f in ("_size", "capacity"):
-                hp = None
-            elif f == "begin" and hp is None:
-                pass                       # a sentinel address belongs to no heap
-            elif f == "endPrev" and hp is None and t == "none":
-                pass
-            self.st[o][f] = (t, hp if f not in ("_size", "capacity") else None)
+            st[o][f] = (t, ty, hp)
             return
         if lhs[0] == "arrow" and lhs[2] == "next":
-            p = self.value(lhs[1])
+            p = self.value_nn(lhs[1])
             if p[1] != "item":
                 self.refuse("`->next` of a pointer that is not known to be a non-null item")
+            if ty == "item":
+                t, ty = f"(Nxt.item {t})", "nxt"
             if ty != "nxt":
                 self.refuse(f"a value of type {ty} is stored into `next`")
-            self.lines.append(f"  let h{p[2]} := upd h{p[2]} {p[0]} {{ h{p[2]} {p[0]} with next := {t} }}")
+            if hp is not None and hp != p[2]:
+                self.refuse("a pointer into the items of one object is stored into an item of the other")
+            lines.append(f"{ind}let h{p[2]} := upd h{p[2]} {p[0]} {{ h{p[2]} {p[0]} with next := {t} }}")
             return
         self.refuse("assignment to something that is not a member of the two objects or `p->next`")
 
-    def block(self, stmts):
+    def run(self, stmts, st, loc, nn, ind):
+        lines = []
+        self.value_nn = lambda e: self.value(e, st, loc, nn)
         for i, s in enumerate(stmts):
             k = s[0]
-            if k in ("block", "block*"):
-                self.block(s[1])
-            elif k == "decl":
+            if k == "decl":
                 ty, name, e = s[1], s[2], s[3]
-                if e is None or name in self.loc:
-                    self.refuse(f"declaration of `{name}`")
-                v = self.value(e)
-                if ty not in ("Item*", "usize", "Item**", "ItemBlock*"):
-                    self.refuse(f"declaration of type `{ty}`")
-                if isinstance(v[0], tuple):
-                    self.loc[name] = v          # data: (allocated, heads)
-                else:
-                    self.lines.append(f"  let v_{name} := {v[0]}")
-                    self.loc[name] = (f"v_{name}", v[1], v[2])
+                if e is None or name in loc or ty not in ("Item*", "usize", "Item**", "ItemBlock*"):
+                    self.refuse(f"declaration `{ty} {name}`")
+                loc[name] = self.value(e, st, loc, nn)
             elif k == "expr" and s[1][0] == "assign":
-                v = self.value(s[1][2])
-                self.assign(s[1][1], v)
+                if s[1][1][0] == "id" and s[1][1][1] in loc:
+                    self.refuse(f"the local `{s[1][1][1]}` is assigned again")
+                self.assign(s[1][1], self.value(s[1][2], st, loc, nn), st, loc, lines, ind)
             elif k == "if":
                 c = s[1]
                 if c[0] != "assign":
                     self.refuse("`if` whose condition is not of the form `(member = pointer)`")
-                v = self.value(c)
-                if v[1] != "opt":
+                v = self.value(c[2], st, loc, nn)
+                if v[1] not in ("opt", "item"):
                     self.refuse(f"condition of type {v[1]}")
-                # the two branches are translated on copies of the state; the states are merged through `match` results
+                self.assign(c[1], v, st, loc, lines, ind)
+                rest = stmts[i + 1:]
+                if v[1] == "item":
+                    return lines + self.run(self.flatten([s[2]]) + rest, st, loc, nn, ind)
                 a = self.fresh("a")
-                saved = ({o: dict(d) for o, d in self.st.items()}, dict(self.loc), self.lines)
-                outs = []
-                for branch, bind in ((s[2], True), (s[3], False)):
-                    self.st = {o: dict(d) for o, d in saved[0].items()}
-                    self.loc = dict(saved[1])
-                    self.lines = []
-                    if bind:
-                        # inside the then-branch the tested member / local is a non-null item
-                        for o in "AB":
-                            for f, (t, hp) in list(self.st[o].items()):
-                                if t == v[0]:
-                                    self.st[o][f + "$nn"] = (a, hp)
-                        for nme, (t, ty_, hp) in list(self.loc.items()):
-                            if t == v[0]:
-                                self.loc[nme] = (a, "item", hp)
-                        self.nn = (v[0], a, v[2])
-                    else:
-                        self.nn = None
-                    self.block([branch])
-                    outs.append((self.st, self.lines))
-                self.nn = None
-                self.st, self.loc, self.lines = {o: dict(d) for o, d in saved[0].items()}, dict(saved[1]), saved[2]
-                # what the branches changed: the begin members and the heaps
-                changed = sorted({(o, f) for st, _ in outs for o in "AB" for f in st[o] if not f.endswith("$nn") and st[o][f] != saved[0][o].get(f)})
-                names = [f"m_{o}_{f}" for o, f in changed]
-                tup = lambda st: "(hA, hB" + "".join(", " + st[o][f][0] for o, f in changed) + ")"
-                for (o, f) in changed:
-                    hs = {st[o][f][1] for st, _ in outs}
-                    hs.discard(None)
-                    if len(hs) > 1 or f == "data":
-                        self.refuse(f"the branches of an `if` leave `{f}` designating different objects")
-                self.lines.append(f"  let (hA, hB" + "".join(", " + n for n in names) + ") := (match " + v[0] + " with")
-                self.lines.append(f"    | some {a} =>")
-                self.lines += ["    " + l for l in outs[0][1]]
-                self.lines.append(f"      {tup(outs[0][0])}")
-                self.lines.append(f"    | none =>")
-                self.lines += ["    " + l for l in outs[1][1]]
-                self.lines.append(f"      {tup(outs[1][0])})")
-                for (o, f), n in zip(changed, names):
-                    hs = {st[o][f][1] for st, _ in outs}
-                    hs.discard(None)
-                    self.st[o][f] = (n, hs.pop() if hs else None)
+                cp = lambda: ({o: dict(d) for o, d in st.items()}, dict(loc))
+                st1, loc1 = cp()
+                nn1 = dict(nn)
+                nn1[v[0]] = a
+                st2, loc2 = cp()
+                yes = self.run(self.flatten([s[2]]) + rest, st1, loc1, nn1, ind + "  ")
+                no = self.run(self.flatten([s[3]]) + rest, st2, loc2, dict(nn), ind + "  ")
+                return lines + [f"{ind}match {v[0]} with", f"{ind}| some {a} =>"] + yes + [f"{ind}| none =>"] + no
             else:
                 self.refuse(f"statement `{k}` is outside the translated subset")
-
-    # `endItem.prev->next`: the member read back inside the then-branch of `if((endItem.prev = x))` is the bound item
-    def value_nn(self, e):
-        pass
-
-
-def swap_value_patch():
-    """`p->next = …` needs `p` as a non-null item: inside the then-branch of `if((m = x))` both the member `m` and the
-    local / member `x` are the bound item"""
-    orig = Swap.value
-
-    def value(self, e):
-        nn = getattr(self, "nn", None)
-        if nn is not None:
-            m = self.member(e) if e[0] in ("dot", "id") else None
-            if m is not None and self.st[m[0]][m[1]][0] == nn[0]:
-                return (nn[1], "item", self.st[m[0]][m[1]][1])
-            if e[0] == "id" and e[1] in self.loc and self.loc[e[1]][0] == nn[0]:
-                return (nn[1], "item", self.loc[e[1]][2])
-        return orig(self, e)
-    Swap.value = value
-
-
-swap_value_patch()
+            self.value_nn = lambda e: self.value(e, st, loc, nn)
+        res = []
+        for o in "AB":
+            d = st[o]
+            heaps = {d[f][2] for f in ("_begin.item", "endItem.prev", "freeItem", "data", "blocks")}
+            heaps.discard(None)
+            if len(heaps) != 1:
+                self.refuse(f"after the exchange the members of `{'this' if o == 'A' else 'other'}` designate items, buckets and "
+                            f"blocks of different objects")
+            hp = heaps.pop()
+            if d["freeItem"][2] != hp or d["blocks"][2] != hp or d["data"][2] != hp:
+                self.refuse("free list, bucket array and blocks of one object belong to different objects")
+            res.append(f"{{ self := {o}.self, cap := {d['capacity'][0]}, allocated := {d['data'][0][0]}, heads := {d['data'][0][1]}, "
+                       f"items := h{hp}, begin := {d['_begin.item'][0]}, endPrev := {d['endItem.prev'][0]}, size := {d['_size'][0]}, "
+                       f"freeItem := {d['freeItem'][0]}, blocks := {d['blocks'][0]}, ipb := {hp}.ipb, dcap := {hp}.dcap }}")
+        return lines + [f"{ind}some ({res[0]},", f"{ind}      {res[1]})"]
 
 
 # ---- the functions -----------------------------------------------------------------------------------------------------------
@@ -1223,6 +1166,8 @@ class Gen:
             raise Refuse(f"{cls}::swap: preprocessor directive")
         p = P(tokenize(body), f"{cls}::swap")
         stmts = p.stmts()
+        if p.peek() is not None:
+            raise Refuse(f"{cls}::swap: trailing tokens")
         sw = Swap(cls)
         lines = sw.translate(stmts)
         parts.append("def swap (A B : PTable) : Option (PTable × PTable) :=\n  let hA := A.items\n  let hB := B.items\n" + "\n".join(lines) + "\n")
@@ -1230,7 +1175,7 @@ class Gen:
         return parts, f"{cls}({' '.join(summary)} stmts)"
 
 
-WITH_SWAP = False
+WITH_SWAP = True
 HEADERS = [("HashMap", "include/nstd/HashMap.hpp"), ("HashSet", "include/nstd/HashSet.hpp"), ("PoolMap", "include/nstd/PoolMap.hpp")]
 
 
